@@ -46,7 +46,9 @@ MoreJudge(e) ==
            tf == d[1] /\ IsTorsionFree(d[2])
        IN <</\ o.ed_ok = d[1] /\ o.edu_ok = d[1] /\ (d[1] => o.ed = Compress(d[2]))
             /\ o.sg_ok = tf /\ (tf => o.sg = Compress(d[2]))
-            /\ (o.sgu_ok => d[1])                                 \* unchecked: only decoding is promised
+            \* group's from_bytes_unchecked MAY skip checks, but C17 says the subgroup wrapper admits exactly the torsion-free
+            \* points, and a safe function that builds a SubgroupPoint with a torsion component breaks that: same rule as from_bytes
+            /\ o.sgu_ok = tf
             /\ o.ris_ok = r[1] /\ o.risu_ok = r[1] /\ (r[1] => o.ris = b),
             <<d[1], tf, r[1]>>>>
   ELSE IF e.op = "grp.cofactor" THEN
